@@ -64,6 +64,39 @@ def check_header_pool5(b0: bool, b1: bool, b2: bool, b3: bool, b4: bool, b5: boo
     return _header_ok(POOLS[5], (b0, b1, b2, b3, b4, b5))
 
 
+def check_header_after_changes(ops: List[int]) -> bool:
+    """
+    pre: len(ops) <= 3
+    pre: all(0 <= o <= 6 for o in ops)
+    post: _
+    """
+    # a history of: render the table (0), store a new series by item assignment (1-3: three different names), by AppendValue (4), by update() (5),
+    # delete one (6) - after every step the header names exactly the stored series, in the documented order
+    h = TimeSeriesHolder('k')
+    h['k'] = [0., 1.]
+    h['x'] = [5., 6.]
+    for o in ops:
+        if o == 1:
+            h['H_TO_Y'] = [1., 2.]
+        elif o == 2:
+            h['a'] = [3., 4.]
+        elif o == 3:
+            h['t'] = [0., 1.]
+        elif o == 4:
+            h.AppendValue('z', 7.)
+        elif o == 5:
+            h.update({'y': [8., 9.]})
+        elif o == 6:
+            if 'x' in h:
+                del h['x']
+        head = h.GenerateCSVtext('%d').split(chr(10))[0].split(chr(9))
+        chosen = list(h.keys())
+        want = [p for p in PRIORITY if p in chosen] + sorted(n for n in chosen if n not in PRIORITY)
+        if head != want or h.GetSeriesList() != want:
+            return False
+    return True
+
+
 def reach_header(b0: bool, b1: bool, b2: bool) -> bool:
     """ post: not (_ and b0 and not b1 and b2) """
     return _header_ok(POOLS[0], (b0, b1, b2, False, False, True))
